@@ -19,14 +19,26 @@ const P: &str = "C05";
 /// the one chunk that crossed it (a chunk is at most one read buffer) → 303 104; 16 queued heads.
 /// An unbounded variant accumulates the whole 1–8 MiB the peers below push.
 pub const R_IN: usize = 600_000;
+/// One poll reads at most until the read buffer reaches MAX_BUFFER_SIZE (plus the slack of the
+/// last read, see above); several decode rounds within one poll do not happen.
+pub const R_POLL: usize = 400_000;
 
 pub fn check(sc: &Scenario, ex: &Exec, a: &Analysis) -> Vec<Violation> {
     let mut v = vec![];
     let kind = sc.name.split(':').next().unwrap_or("");
-    if ex.peaks.read_ahead > R_IN {
+    let drain_mode = sc.programs.iter().any(|p| matches!(p.payload, PayloadPlan::DropAtStart));
+    if ex.peaks.read_ahead > R_IN && !drain_mode {
         v.push(viol(P, "a", &format!("read-ahead-unbounded:{kind}"), format!(
             "the connection took {} bytes from the socket while only the first {} bytes of the stream had been handed to the application ({} requests dispatched): {} bytes held, bound {}",
             ex.peaks.read_ahead_at.0, ex.peaks.read_ahead_at.1, ex.peaks.read_ahead_at.2, ex.peaks.read_ahead, R_IN)));
+    }
+    // unparsed input is limited also while a dropped body is drained / lingered over: what the
+    // connection takes from the socket in one poll is what it holds at once
+    // (not while lingering: poll_linger reads and discards buffer after buffer within one poll,
+    // so its intake per poll is not what it holds at once)
+    if ex.peaks.intake_per_poll > R_POLL && sc.config.disconnect_timeout_ms == 0 {
+        v.push(viol(P, "a", &format!("intake-per-poll-unbounded:{kind}"), format!(
+            "the connection took {} bytes from the socket within a single poll (bound {}): it held them all at once", ex.peaks.intake_per_poll, R_POLL)));
     }
     let max_chunk = sc.programs.iter().map(|p| max_chunk(&p.body)).max().unwrap_or(0);
     let wb_bound = sc.config.write_buf + max_chunk + 64;
@@ -84,6 +96,7 @@ pub fn scenarios(tier: &str) -> Vec<Scenario> {
         }).collect();
         let mut s = Scenario::new(&name, reqs, progs);
         s.env.gauges = true;
+        s.env.spurious_polls = 40;
         s.env.light_log = true;
         s.env.budgets = budgets.clone();
         s.fin = FinPlan::Never;
@@ -118,6 +131,18 @@ pub fn scenarios(tier: &str) -> Vec<Scenario> {
         let n1 = if tier == "thorough" { 400_000 } else { 120_000 };
         add(format!("body-chunked-1b:{cn}"), vec![RequestSpec::new("POST", 0).chunked((0..n1).map(|_| ChunkSpec::plain(b"z")).collect())], vec![ok().plan(plan.clone())], &|_| {});
     }
+    // a dropped body that the connection drains (chunked) or lingers over (Content-Length +
+    // disconnect timeout): judged by intake per poll (the bytes are discarded, not delivered)
+    add("drain-chunked-64k:handler-drops".to_string(), vec![RequestSpec::new("POST", 0).chunked((0..(big / 65_536)).map(|_| ChunkSpec::plain(&fill(65_536))).collect())], vec![ok().plan(PayloadPlan::DropAtStart)], &|_| {});
+    add("drain-chunked-1k:handler-drops".to_string(), vec![RequestSpec::new("POST", 0).chunked((0..(big / 1024 / 4)).map(|_| ChunkSpec::plain(&fill(1024))).collect())], vec![ok().plan(PayloadPlan::DropAtStart)], &|_| {});
+    add("drain-cl-linger:handler-drops".to_string(), vec![RequestSpec::new("POST", 0).cl(&fill(big))], vec![ok().plan(PayloadPlan::DropAtStart)], &|s| {
+        s.config.disconnect_timeout_ms = 1000;
+        s.env.horizon_ms = 2500;
+    });
+    // back-pressure for the body of a pipelined request that is still waiting in the queue
+    add("pipeline:slow-get-then-big-post".to_string(), vec![RequestSpec::new("GET", 0), RequestSpec::new("POST", 1).cl(&fill(big))], vec![ok().pend(1), ok()], &|s| s.env.hold_gates = true);
+    add("pipeline:streaming-get-then-big-chunked-post".to_string(), vec![RequestSpec::new("GET", 0), RequestSpec::new("POST", 1).chunked((0..(big / 65_536)).map(|_| ChunkSpec::plain(&fill(65_536))).collect())],
+        vec![HandlerProgram::ok(BodySpec::BodyStream(vec![Chunk::Data(b"a".to_vec()), Chunk::Pending, Chunk::Data(b"b".to_vec())])), ok()], &|s| s.env.hold_gates = true);
     // (e) thousands of pipelined requests against a handler that never completes
     add("pipeline:5000-handler-never-completes".into(), (0..5000).map(|i| RequestSpec::new("GET", i).header("x-pad", "0123456789012345678901234567890123456789012345678901234567890123456789012345678901234567890123456789")).collect(),
         (0..5000).map(|i| if i == 0 { ok().pend(1) } else { ok() }).collect(), &|s| s.env.hold_gates = true);
@@ -150,7 +175,7 @@ pub fn bound(sc: &Scenario, tier: &str) -> u32 {
     match (tier, heavy) {
         ("thorough", false) => 2,
         ("thorough", true) => 1,
-        (_, false) => 2,
+        (_, false) => 1,
         (_, true) => 1,
     }
 }
